@@ -1,6 +1,11 @@
 """C17 — signed text messages verify for the signer only and never crash the verifier."""
+import random
+import re
+import zlib
+
 from vmon.probe import shard_rng, observe
 from vmon.refs import b58 as RB, ec as REC, msgsign as RM, sec as RS
+from vmon.gen import textequiv as TE
 
 PROPERTY = "C17"
 PRELOAD_NETWORK_ORDERS = [["btc", "xtn", "ltc", "bch", "grs", "doge", "dash", "btg"], ["btg", "grs", "bch", "doge", "ltc", "xtn", "btc"]]
@@ -25,6 +30,17 @@ RULE = ("honest cases: (network, secret exponent, compression flag, message) wit
         "target kind, signature text, message, spelling of the message) or repeats it, with malformed signature texts (failed "
         "calls) interleaved; every outcome is judged by the reference alone, so any state kept on the reused signer object "
         "(memo of the last recovery / digest / signature / parsed address) that leaks between calls shows. "
+        "equivalent spellings: pairs (a, b) of DIFFERENT messages that a text canonicalisation identifies (vmon/gen/textequiv.py: Unicode "
+        "NFC / NFD / NFKC / NFKD forms, partial decompositions, singleton code points, reordered combining marks; lower / upper / title / "
+        "case-folded; leading, trailing, doubled, tab / no-break white space, trailing blanks per line, final newline; LF / CRLF / CR / "
+        "U+2028 / NEL newlines; byte order mark, zero-width and other format characters, variation selectors; NUL suffix and control "
+        "characters; accents dropped; typographic vs ASCII punctuation; digits of other scripts; cross-script look-alikes; HTML / percent / "
+        "backslash escapes; mojibake, '?'-replaced text, and - as queried message only - UTF-16 surrogate pairs, lone or "
+        "surrogate-escaped surrogates and bytes objects in other encodings), drawn from both sides of each equivalence (canonical form "
+        "signed and the other queried, the reverse, and two non-canonical spellings): each side is signed, digested, verified for key / "
+        "public key / address, armoured and parsed on the same signer object, and the other side's text is then queried against that "
+        "signature by key, by public key, by address, by keyword, and inside the armour (the signed armour with the message body "
+        "exchanged, parsed, the parsed triple verified); every honest and history case also queries respellings of its own message. "
         "Distinct by (operation, network, key, text, message) and, in histories, by (previous call, call); every case is non-trivial.")
 ASSUMPTIONS = [
     "references vmon/refs/msgsign.py, ec.py, sec.py, b58.py are correct (self-tested on every run: RFC 6979 A.2.5 vectors, "
@@ -47,6 +63,11 @@ ASSUMPTIONS = [
     "in histories a verdict is demanded exactly when the signature text is canonical base64 (one possible decoding); a key-object "
     "target whose compression flag differs from the signature's header flag is not judged (the statement does not say whether it "
     "is 'the signer'); for non-canonical text only 'a bool, and True must be justified' is demanded, as in the hostile family",
+    "a queried message that is not text UTF-8 can encode (a str with lone surrogates, a bytes object) is outside 'all unicode messages': "
+    "verify may raise or return False for it; only True is a violation (the signature then verifies for something that is not the signed "
+    "message). The UTF-8 bytes of the signed message itself are never queried (an API that accepted bytes might rightly accept them)",
+    "the signed armour with its message body exchanged is not an armour the statement describes; parse_signed may refuse it or return any "
+    "triple - demanded is only that verify() on the triple it returns gives the reference's verdict for that triple",
     "networks GRS, GRSRT, TGRS need the absent groestlcoin_hash module and are reported as absent configurations",
 ]
 EXPLANATION = ("every signature pycoin produces is decoded and its signer recovered by independent arithmetic over the reference "
@@ -86,11 +107,15 @@ def plan(tier, seed):
         shards.append({"kind": "history", "idx": i, "episodes": 28 if q else 900, "steps": 36, "label": "history-openssl-%d" % i})
     shards.append({"kind": "history", "idx": 60, "episodes": 2 if q else 40, "steps": 24, "env": {"PYCOIN_NATIVE": "none"},
                    "label": "history-purepython"})
+    # equivalent spellings of one text on both sides of sign / verify (appended last, see above)
+    for i in range(3 if q else 8):
+        shards.append({"kind": "equiv", "idx": i, "pairs": 132 if q else 6000, "label": "equiv-openssl-%d" % i})
+    shards.append({"kind": "equiv", "idx": 70, "pairs": 9 if q else 220, "light": True, "env": {"PYCOIN_NATIVE": "none"}, "label": "equiv-purepython"})
     return shards
 
 
 def selftest(rec):
-    return {"ec": REC.selftest(), "sec": RS.selftest(), "msgsign": RM.selftest(), "b58_vectors": RB.selftest()}
+    return {"ec": REC.selftest(), "sec": RS.selftest(), "msgsign": RM.selftest(), "b58_vectors": RB.selftest(), "textequiv": TE.selftest()}
 
 
 # ---------------------------------------------------------------------------------------------
@@ -312,6 +337,18 @@ def check_signed(net, code, se, comp, msg, armour_ok, rec, m, rng, light=False, 
             ok, v = call(rec, case, "verify", net.msg.verify, target, sig, om)
             if ok and v is not False:
                 rec.violation("msg.verifies_for_other_message", dict(case, other_msg=om, target=what), v, False)
+    # other spellings of the same text (normal forms, case, white space, newlines, invisible characters ...): other messages
+    sub = random.Random((se << 32) ^ zlib.crc32(msg.encode("utf8")) ^ len(msg))
+    rs = [(f, t + msg[1500:]) for f, t in TE.respell(msg[:1500], sub)]
+    for k, (form, om) in enumerate(sub.sample(rs, min(len(rs), 1 if light else 2))):
+        if (RM.digest(name, om) - z) % N == 0:
+            continue
+        what, target = (("key", key), ("address", addr))[(k + se + len(msg)) & 1]
+        rec.ev("verify(other spelling of the message)")
+        rec.ev("respelling:" + form)
+        ok, v = call(rec, case, "verify", net.msg.verify, target, sig, om)
+        if ok and v is not False:
+            rec.violation("msg.verifies_for_equivalent_message.respelling", dict(case, other_msg=om, target=what, form=form), v, False)
     other_ses = [N - se] + ([] if light else [rng.randrange(1, N), se % (N - 1) + 1])
     for ose in other_ses:
         if ose == se:
@@ -379,6 +416,160 @@ def run_honest(spec, rec, m):
             if s and j == 13 + 2 * ci + spec["part"] and ci < 2:
                 rec.sample(dict(s, op="sign / verify / recover / armour"))
         rec.ev("networks_usable")
+
+
+# ---------------------------------------------------------------------------------------------
+# equivalent spellings: two different messages that a text canonicalisation identifies, on both sides of sign / verify
+
+_MARKER_LINE = re.compile(r"SIGNED MESSAGE-----|-----BEGIN [A-Z ]*SIGNATURE-----")
+
+
+def armour_domain(msg):
+    """the statement's domain for the armoured form (read conservatively): lines joined by LF only or CRLF only, no other CR, no
+    other line separator, no armour marker."""
+    if any(c in msg for c in "\x0b\x0c\x1c\x1d\x1e\x85\u2028\u2029"):
+        return False
+    rest = msg.replace("\r\n", "")
+    if "\r" in rest or ("\r\n" in msg and "\n" in rest):
+        return False
+    return not _MARKER_LINE.search(msg)
+
+
+def _safe(v):
+    """JSON cannot tell a UTF-16 surrogate pair from the character it stands for, so a string UTF-8 cannot encode is written into a
+    witness as its code points."""
+    if isinstance(v, str) and not TE.encodable(v):
+        return {"utf32le": "h" + v.encode("utf-32-le", "surrogatepass").hex()}
+    return v
+
+
+def _unsafe(v):
+    if isinstance(v, dict) and "utf32le" in v:
+        return bytes.fromhex(str(v["utf32le"])[1:]).decode("utf-32-le", "surrogatepass")
+    return v
+
+
+def query_other(rec, case, net, target, what, sig, other, family, by="text", via=""):
+    """a signature queried with a message that is not the signed one: False. (True is a violation; an exception is one when the
+    queried message is text, and not judged when it is something UTF-8 cannot encode.)"""
+    rec.ev("verify(equivalent message%s)" % via)
+    rec.ev("verify(equivalent message, %s)" % what)
+    st, v = observe(net.msg.verify, target, sig, other) if by == "text" else observe(net.msg.verify, target, sig, message=other)
+    if st != "ok":
+        if TE.encodable(other):
+            rec.violation("msg.honest_call_raises.verify", dict(case, target=what), v, "no exception")
+        else:
+            rec.ev("verify(unencodable or bytes spelling) raises: not judged")
+        return
+    if not TE.encodable(other):
+        rec.ev("verify(unencodable or bytes spelling) returns")
+    if v is not False:
+        rec.violation("msg.verifies_for_equivalent_message%s.%s" % (via and ".armour", family), dict(case, target=what, by=by), v, False)
+
+
+def check_equiv_pair(net, code, se, comp, pair, rec, m, light=False):
+    """pair = textequiv.gen_pair(): a != b, the same text under pair["under"]. Each signable side is signed and verified, then
+    queried with the other side's spelling - by key, by public key, by address, by keyword, and inside the armour."""
+    a, b, family = pair["a"], pair["b"], pair["family"]
+    name = net.network_name
+    Pref = m.refpub(se)
+    sides = [(a, b)] + ([(b, a)] if TE.encodable(b) else [])
+    eq = {k: pair[k] for k in ("family", "a", "form_a", "form_b", "under")}
+    eq["b"] = _safe(b)
+    eq["more"] = [[f, _safe(t)] for f, t in pair.get("more", [])]
+    base = {"net": code, "se": se, "compressed": comp, "equiv": eq}
+    rec.case(("equiv", code, se, comp, a, b if isinstance(b, str) else bytes(b)))
+    rec.ev("equiv:" + family)
+    rec.ev("equiv_under:%s" % pair["under"])
+    for sh in TE.pair_shapes(pair):
+        rec.ev("equiv_shape:" + sh)
+    if len(sides) == 2:
+        rec.ev("equiv:both sides signed")
+    key = net.keys.private(se, is_compressed=comp)
+    pub = net.keys.public(Pref, is_compressed=comp)
+    addr = key.address()
+    for d, (msg, other) in enumerate(sides):
+        case = dict(base, signed="a" if d == 0 else "b")
+        z = RM.digest(name, msg)
+        if TE.encodable(other) and (RM.digest(name, other) - z) % N == 0:
+            continue                                    # a SHA-256 collision
+        rec.ev("hash_for_signing")
+        ok, hz = call(rec, case, "hash_for_signing", net.msg.hash_for_signing, msg)
+        if ok and hz != z:
+            rec.violation("msg.digest_mismatch", case, hz, z)
+        rec.ev("sign")
+        ok, sig = call(rec, case, "sign", net.msg.sign, key, msg)
+        if not ok or judge_signature(rec, case, m, sig, z, Pref, comp) is None:
+            continue
+        targets = [("key", key), ("address", addr)] if light else [("key", key), ("public_key", pub), ("address", addr)]
+        for what, target in targets:
+            rec.ev("verify(%s)" % what)
+            ok, v = call(rec, case, "verify", net.msg.verify, target, sig, msg)
+            if ok and v is not True:
+                rec.violation("msg.own_signature_rejected." + what, case, v, True)
+        # the other spelling against this signature
+        for k, (what, target) in enumerate(targets):
+            query_other(rec, case, net, target, what, sig, other, family)
+            if not light and (k + se + d) % 3 == 0:
+                query_other(rec, case, net, target, what, sig, other, family, by="keyword")
+        if d == 0:
+            # the remaining spellings of a that are not text UTF-8 can encode (surrogate pairs, lone / escaped surrogates, bytes in
+            # other encodings): queried only
+            for k, (form, t) in enumerate(pair.get("more", [])[:3 if light else 99]):
+                what, target = targets[(k + se) % len(targets)]
+                rec.ev("equiv_query:" + form)
+                query_other(rec, dict(case, query=_safe(t), form=form), net, target, what, sig, t, family)
+        # ... and the signed spelling still verifies after the refused query (same signer object)
+        rec.ev("verify(address)")
+        ok, v = call(rec, case, "verify", net.msg.verify, addr, sig, msg)
+        if ok and v is not True:
+            rec.violation("msg.own_signature_rejected.address", dict(case, then="after the other spelling was refused"), v, True)
+        # armoured form
+        rec.ev("sign(verbose)")
+        ok, text = call(rec, case, "sign_verbose", net.msg.sign, key, msg, verbose=True)
+        if ok and armour_domain(msg):
+            rec.ev("parse_signed")
+            st, parsed = observe(net.msg.parse_signed, text)
+            if st != "ok" or not isinstance(parsed, tuple) or tuple(parsed) != (msg, addr, sig):
+                rec.violation("msg.armour_roundtrip_mismatch", case, parsed, [msg, addr, sig])
+            else:
+                rec.ev("verify(parsed armour)")
+                st, v = observe(net.msg.verify, parsed[1], parsed[2], parsed[0])
+                if st != "ok" or v is not True:
+                    rec.violation("msg.armour_parsed_triple_does_not_verify", case, v, True)
+        elif ok:
+            rec.ev("sign(verbose, outside armour domain)")
+        if isinstance(other, str):
+            # the signed armour with the other spelling as its body: whatever triple the parser makes of it, verify() must judge
+            # that triple as the reference does
+            forged = RM.armour(name, other, addr, sig)
+            rec.ev("parse_signed(armour with the other spelling)")
+            st, parsed = observe(net.msg.parse_signed, forged)
+            if st == "ok" and isinstance(parsed, tuple) and len(parsed) == 3 and parsed[1] == addr and parsed[2] == sig and isinstance(parsed[0], str):
+                pm = parsed[0]
+                if pm == msg:
+                    rec.ev("parse_signed(armour with the other spelling) returns the signed spelling: not judged")
+                elif not TE.encodable(pm) or (RM.digest(name, pm) - z) % N:
+                    query_other(rec, dict(case, parsed_msg=_safe(pm)), net, parsed[1], "address", parsed[2], pm, family, via=", parsed armour")
+            else:
+                rec.ev("parse_signed(armour with the other spelling) refused or other triple: not judged")
+
+
+def run_equiv(spec, rec, m):
+    rng = shard_rng(spec["seed"], PROPERTY, spec["tier"], spec["shard"])
+    codes = sorted(m.nets)
+    bounds = boundary_exponents()
+    light = bool(spec.get("light"))
+    idx = spec["idx"]
+    for i in range(spec["pairs"]):
+        code = "BTC" if (i == 0 and "BTC" in m.nets) else codes[(idx * 13 + i * 7 + spec["seed"]) % len(codes)]
+        se = bounds[(i // 5 + idx) % len(bounds)] if i % 5 == 0 else rng.randrange(1, N)
+        pair = TE.gen_pair(rng, i + (spec["seed"] * 5 if light else 0), rot=idx + spec["seed"])
+        check_equiv_pair(m.nets[code], code, se, bool((i + idx) & 1), pair, rec, m, light=light)
+        if i == 3 * idx and idx < 3:
+            rec.sample({"op": "sign(a) / verify(b) and sign(b) / verify(a), a and b the same text under '%s'" % pair["under"], "net": code,
+                        "a": pair["a"], "b": pair["b"], "expected": "each verifies for itself only"})
+    rec.ev("networks_usable", len(codes))
 
 
 # ---------------------------------------------------------------------------------------------
@@ -718,6 +909,11 @@ def run_episode(rng, rec, m, codes, steps, first):
         msgs[2] = gen_message(rng, rng.randrange(0, 90))[0][:300]
     if msgs[2] in msgs[:2]:
         msgs[2] = a + "?"
+    # another spelling of the same text (normal form, case, white space, newline style, invisible characters ...): a different message
+    rs = [t for _, t in TE.respell(a, rng) if t not in msgs]
+    msgs.append(rng.choice(rs) if rs else a + "\ufeff")
+    if arm and len(msgs[3]) <= 300 and armour_domain(msgs[3]):
+        armourable.add(msgs[3])
     sigs = []           # every well-formed signature text seen in this episode
     made = {}           # (net, se, compressed, msg) -> a signature text made for exactly these
     hist = []
@@ -807,7 +1003,20 @@ def run_shard(spec, rec):
         rec.require("history:verify", "history:verify_by_hash", "history:verify_by_text", "history:expected_True", "history:expected_False",
                     "history:same_signature_other_digest_back_to_back", "history:verify_after_failed_call", "history:sign", "history:malformed_text")
         run_history(spec, rec, m)
+    elif spec["kind"] == "equiv":
+        rec.require("sign", "verify(key)", "verify(address)", "verify(equivalent message)", "verify(equivalent message, key)",
+                    "verify(equivalent message, address)", "verify(equivalent message, parsed armour)", "equiv:both sides signed", "parse_signed",
+                    "equiv:canonical", "equiv:compat", "equiv:case", "equiv:whitespace", "equiv:newline", "equiv:invisible", "equiv:encoding")
+        if not spec.get("light"):
+            rec.require("equiv_shape:canonical:nfc>other", "equiv_shape:canonical:other>nfc", "equiv_shape:canonical:nfd>other",
+                        "equiv_shape:canonical:other>nfd", "equiv_shape:compat:nfkc>other", "equiv_shape:compat:other>nfkc",
+                        "equiv_shape:encoding:text>unencodable", "equiv_shape:encoding:text>bytes", "equiv_shape:encoding:text>text",
+                        "equiv_shape:case:folded>other", "equiv_shape:case:other>folded", "equiv_shape:newline:lf>crlf", "equiv_shape:newline:crlf>lf",
+                        "verify(equivalent message, public_key)", "equiv:control", "equiv:accents", "equiv:punct", "equiv:digits",
+                        "equiv:confusable", "equiv:escape")
+        run_equiv(spec, rec, m)
     elif spec["kind"] == "honest":
+        rec.require("verify(other spelling of the message)")
         rec.require("sign", "sign(verbose)", "verify(key)", "verify(address)", "parse_signed", "pair_for_message_hash", "hash_for_signing",
                     "verify(other message)", "verify(other key)", "verify(other address)")
         run_honest(spec, rec, m)
@@ -831,7 +1040,24 @@ def replay_case(case, rec):
         if k in case:
             case[k] = _text(case[k])
     net = m.nets[case["net"]]
-    if "history" in case:
+    if "equiv" in case:
+        pair = dict(case["equiv"])
+        pair["a"] = _text(pair["a"])
+        if str(pair.get("form_b", "")).startswith("bytes_"):
+            if isinstance(pair["b"], str) and pair["b"].startswith("x:"):
+                pair["b"] = bytes.fromhex(pair["b"][2:])
+        else:
+            pair["b"] = _unsafe(pair["b"]) if isinstance(pair["b"], dict) else _text(pair["b"])
+        more = []
+        for form, t in pair.get("more", []):
+            if str(form).startswith("bytes_"):
+                t = bytes.fromhex(t[2:]) if isinstance(t, str) and t.startswith("x:") else t
+            else:
+                t = _unsafe(t) if isinstance(t, dict) else _text(t)
+            more.append([form, t])
+        pair["more"] = more
+        check_equiv_pair(net, case["net"], int(case["se"]), bool(case["compressed"]), pair, rec, m)
+    elif "history" in case:
         hist = []
         for step in case["history"]:
             step = {k: v for k, v in step.items() if k != "_failed"}
